@@ -1,11 +1,54 @@
 package main
 
-import "github.com/fullstorydev/grpchan/inprocgrpc"
+import (
+	"reflect"
+	"strings"
+	"unsafe"
+
+	"github.com/fullstorydev/grpchan/inprocgrpc"
+
+	"verif/mc"
+)
+
+// yieldCloner: the cloner is the application's (WithCloner); like every user-supplied function it may
+// contain scheduling points, so a copy is not atomic with the library's check before it.
+type yieldCloner struct{ inner inprocgrpc.Cloner }
+
+func (y yieldCloner) Copy(out, in interface{}) error {
+	access(in, false)
+	access(out, true)
+	return y.inner.Copy(out, in)
+}
+
+func (y yieldCloner) Clone(in interface{}) (interface{}, error) {
+	access(in, false)
+	return y.inner.Clone(in)
+}
+
+// access: a tracked read / write of a message object (mc.Access): a scheduling point, and the two orders
+// of conflicting accesses to one object by different tasks are distinct states.
+func access(m interface{}, write bool) {
+	if !mc.Active() || m == nil {
+		return
+	}
+	v := reflect.ValueOf(m)
+	if v.Kind() != reflect.Ptr || v.IsNil() {
+		return
+	}
+	mc.Access(unsafe.Pointer(v.Pointer()), write)
+}
 
 func hooksFor(sc *Scenario) *hooks {
-	if sc.Cloner == "recording" {
-		rc := &recCloner{inner: inprocgrpc.ProtoCloner{}, owned: map[interface{}]*ownedMsg{}}
+	var inner inprocgrpc.Cloner = inprocgrpc.ProtoCloner{}
+	if strings.Contains(sc.Cloner, "yield") {
+		inner = yieldCloner{inner}
+	}
+	if strings.Contains(sc.Cloner, "recording") {
+		rc := &recCloner{inner: inner, owned: map[interface{}]*ownedMsg{}}
 		return &hooks{cloner: rc, rec: rc}
+	}
+	if strings.Contains(sc.Cloner, "yield") {
+		return &hooks{cloner: inner}
 	}
 	return nil
 }
